@@ -149,6 +149,20 @@ func propTrack(tr Track) error {
 		flat = append(flat, c...)
 	}
 	ls := geom.NewLineStringFlat(layout, flat)
+	// half of the tracks are written after writes that failed (a full disk, a closed
+	// connection): writers that take a few bytes, or a few calls, and then report an error
+	// - what such a call had left to write is nobody's business afterwards
+	if (len(tr.Fixes)+len(tr.A))%2 == 0 {
+		other := geom.NewLineStringFlat(geom.Layout(5), []float64{1.5, 52.5, 123, 86400 * 365 * 31, 0, 1.6, 52.6, 124, 86400*365*31 + 1, 0})
+		for _, lim := range []int{0, 1, 7, 40, 100} {
+			for _, byCalls := range []bool{false, true} {
+				for _, g := range []*geom.LineString{other, ls} {
+					w := &limitWriter{left: lim, byCalls: byCalls}
+					_ = run.Safe(func() error { return igc.NewEncoder(w, igc.A("XFAILED")).Encode(g) })
+				}
+			}
+		}
+	}
 	var buf bytes.Buffer
 	enc := igc.NewEncoder(&buf, igc.A(tr.A))
 	if err := enc.Encode(ls); err != nil {
@@ -227,6 +241,30 @@ func propTrack(tr Track) error {
 		}
 	}
 	return nil
+}
+
+// limitWriter accepts left bytes (or left calls) and then fails; a write that crosses
+// the limit is taken in part and reported with an error, as io.Writer prescribes.
+type limitWriter struct {
+	left    int
+	byCalls bool
+}
+
+func (w *limitWriter) Write(p []byte) (int, error) {
+	if w.byCalls {
+		if w.left <= 0 {
+			return 0, fmt.Errorf("limitWriter: no more calls")
+		}
+		w.left--
+		return len(p), nil
+	}
+	if len(p) <= w.left {
+		w.left -= len(p)
+		return len(p), nil
+	}
+	n := w.left
+	w.left = 0
+	return n, fmt.Errorf("limitWriter: full")
 }
 
 func clip(s string) string {
